@@ -35,9 +35,14 @@ ASSUMPTIONS = ["values are representable in the requested dtype (integers for in
                "no NaN among the specified values (NaN is the code's sentinel for 'not yet assigned'); dictionaries are not nested; "
                "a source field uses the same dimension names as the target mesh",
                "exact-regime inputs (dyadic geometry, small dyadic values, degree <= 2): every binary64 operation on the code path is exact"]
-UNPROVED = ["asArray_dict for int and bool dtypes is FALSE of the code when the default is callable or missing (finding D21: the NaN "
-            "sentinel does not survive the cast); the theorems hold for the model, whose sentinel is dtype independent",
-            "mesh order = first-index-fastest enumeration is C01's indices_refines; C02 proves iteration follows Mesh.indices"]
+UNPROVED = ["asArray_dict / asArray_dict_first_listed are stated for dtypes that can hold NaN (junk = none); for int and bool the code loses "
+            "the sentinel when the default is callable or missing (finding D21, theorem dict_sentinel_lost shows it on the model)",
+            "line theorems need a mesh of dimension != 1: Field.line raises on every 1-d mesh (finding D23, theorem line_1d_rejected)",
+            "the array setter accepts a Field with another nvdim (finding D24, theorem setArray_field_wrong_nvdim_accepted); "
+            "update_field_values rejects it (updateValues_field_wrong_nvdim_rejected)",
+            "the data frame's column names are not modelled: the coordinate column clobbered by a value/distance column of the same name "
+            "(finding D22) is seen by the oracle only",
+            "mesh order = first-index-fastest enumeration is C01's indices_refines; C02 proves that iteration follows Mesh.indices"]
 BUDGET = {"quick": 80, "thorough": 900}
 
 LABELS = ["a", "b", "c", "d", "e", "mx", "my", "mz", "px", "q1"]
@@ -1269,7 +1274,12 @@ def known(case, text):
     if len(case["mesh"]["n"]) == 1 and text.startswith("line ") and "raised" in text:
         return "D23"
     if "accepted by setter: field(nvdim=" in text:
-        return "D24"
+        # only the class of the finding: a source field whose component count differs from the field's
+        for key in ("bad", "spec"):
+            l = case.get(key)
+            if isinstance(l, dict) and l.get("k") == "field" and l.get("src", {}).get("nvdim") not in (None, case["nvdim"]) \
+                    and f"field(nvdim={l['src']['nvdim']}," in text:
+                return "D24"
     kind = case.get("dtype")
     about_cells = (text.startswith("cell ") or text.startswith("the specification assigns")
                    or text.startswith("specification of the wrong shape") or text.startswith("Field(value=")
